@@ -105,7 +105,7 @@ where
     }
 }
 
-fn bytes_read<A: Copy, B: Bytes<A>>(b: &B, at: A, entry: usize, n: usize, buf: &mut LocalBuf, presink: usize) -> Result<Vec<u8>, String>
+fn bytes_read<A: Copy, B: Bytes<A>>(b: &B, at: A, entry: usize, n: usize, buf: &mut LocalBuf, presink: usize, spare: usize) -> Result<Vec<u8>, String>
 where
     B::E: Debug,
 {
@@ -124,7 +124,8 @@ where
             _ => b.read_obj::<[u8; 7]>(at).map(|v| bytes_of(&v)).map_err(es),
         },
         6 | 7 => {
-            let mut sink: Vec<u8> = Vec::with_capacity(64);
+            // the sink may have less room than the transfer needs (it then has to grow)
+            let mut sink: Vec<u8> = Vec::with_capacity(presink + spare);
             sink.resize(presink, 0x5A);
             let r = if entry == 6 { b.write_volatile_to(at, &mut sink, n).map_err(es).and_then(|k| if k == n { Ok(()) } else { Err(format!("short transfer {}", k)) }) } else { b.write_all_volatile_to(at, &mut sink, n).map_err(es) };
             r.map(|()| sink[presink..].to_vec())
@@ -149,6 +150,8 @@ struct Side {
     nops: usize,
     /// host address of a local buffer that touches the guest target (its end or its start)
     adj: Option<usize>,
+    /// spare capacity of the Vec sink beyond its prefix (reader forms 6/7)
+    spare: usize,
 }
 
 #[derive(Clone, Debug, Default)]
@@ -239,9 +242,9 @@ fn do_read(w: &World, goff: usize, s: &Side, n: usize) -> Result<Vec<u8>, String
     };
     match s.entry {
         0 | 1 | 2 | 6 | 7 | 8 => match w.layer {
-            Layer::Slice => bytes_read(&w.vs(), goff, s.entry, n, &mut buf, s.presink),
-            Layer::Region => bytes_read(w.region(), MemoryRegionAddress(goff as u64), s.entry, n, &mut buf, s.presink),
-            Layer::Gm => bytes_read(w.gm.as_ref().unwrap(), GuestAddress(GBASE + goff as u64), s.entry, n, &mut buf, s.presink),
+            Layer::Slice => bytes_read(&w.vs(), goff, s.entry, n, &mut buf, s.presink, s.spare),
+            Layer::Region => bytes_read(w.region(), MemoryRegionAddress(goff as u64), s.entry, n, &mut buf, s.presink, s.spare),
+            Layer::Gm => bytes_read(w.gm.as_ref().unwrap(), GuestAddress(GBASE + goff as u64), s.entry, n, &mut buf, s.presink, s.spare),
         },
         3 => {
             let k = w.vs().subslice(goff, n).map_err(es)?.copy_to(buf.as_mut());
@@ -514,7 +517,8 @@ impl Scenario for Tear {
             let la = if c.a(3) == 0 { 1 + c.a(7) as usize } else { 0 };
             let presink = if c.a(4) == 0 { 1 + c.a(11) as usize } else { [0usize, 8, 16][c.a(3) as usize] };
             let _ = writer;
-            Side { entry, la, presink, nops: 1 + c.a(3) as usize, adj: None }
+            let spare = [64usize, 64, 0, n / 2, n.saturating_sub(1), n][c.a(6) as usize];
+            Side { entry, la, presink, nops: 1 + c.a(3) as usize, adj: None, spare }
         };
         let mut ws = gen_side(true);
         let mut rs = gen_side(false);
